@@ -6,6 +6,6 @@ mkdir -p $B
 cp /verif/_build/extract/model.ml /verif/_build/extract/model.mli $B/
 cp /verif/driver/*.ml $B/
 cd $B
-MODS="glue.ml frame.ml rdbgen.ml valgen.ml incrgen.ml srcgen.ml $(ls c[0-9][0-9]*.ml | sort | tr '\n' ' ') main.ml"
+MODS="glue.ml frame.ml rdbgen.ml valgen.ml incrgen.ml srcgen.ml $(ls c[0-9][0-9]*.ml | grep -v c06.ml | sort | tr '\n' ' ') c06.ml main.ml"
 ocamlfind ocamlopt -O2 -w -a -package unix -linkpkg model.mli model.ml $MODS -o /verif/_build/bin/driver 2>&1 || \
 ocamlfind ocamlopt -w -a -package unix -linkpkg model.mli model.ml $MODS -o /verif/_build/bin/driver
